@@ -391,6 +391,42 @@ func run(c *core.Ctx) error {
 			c.Distinct(core.Canon([]any{m["bolt"], m["disk"], m["root"], m["readers"], m["copyheld"]}))
 		}
 	}
+	// Close arrives while the persister stands between "segment files written and opened" and
+	// "handed to the introducer" (ScorchDisk: Close enabled in every persister state): nothing
+	// of the index may stay open afterwards
+	for k := 0; k < c.Pick(3, 8); k++ {
+		base := c.TempDir("c12c")
+		wl := sx.Workload{Name: "close-mid-persist", Writers: 1, Safe: false, KVConfig: map[string]interface{}{"unsafe_batch": true}}
+		r, err := sx.Start(filepath.Join(base, "idx"), wl, c.Seed+int64(k), 0)
+		if err != nil {
+			return err
+		}
+		r.Quiesce(20 * time.Second)
+		point := []string{"persist.beforeIntro", "persist.filesWritten", "persist.beforeCommit"}[k%3]
+		r.SetHolds([]sx.HoldRule{{Point: point, Until: "CloseBegin", Count: 1, Timeout: 10 * time.Second, Prob: 1, Once: true}})
+		if _, err := r.Submit(sx.BatchSpec{W: 1, Puts: []string{"a", "b"}, Dels: []string{}}); err != nil {
+			return err
+		}
+		parked := r.WaitParked(point, 1, 10*time.Second)
+		if err := r.Close(); err != nil {
+			return err
+		}
+		os.RemoveAll(base)
+		name := "close-mid-persist@" + point
+		n := 0
+		for _, rec := range filesRecords(r.Rec.Events()) {
+			m := rec.(map[string]any)
+			if m["ev"] == "Closed" || m["ev"] == "Reset" {
+				all = append(all, m)
+				owner = append(owner, name)
+				n++
+			}
+		}
+		if parked {
+			c.AddExtra("closes_while_the_persister_was_parked_mid_round", 1)
+		}
+		c.Eval(1)
+	}
 	// the failed-merge schedule of ScorchDisk's MFail action
 	for k := 0; k < c.Pick(2, 6); k++ {
 		fres, err := sx.DirectedFailedMerge(c.TempDir("c12f"), c.Seed+int64(k))
